@@ -157,6 +157,9 @@ CLAIMS = {
 }
 
 NA = {
+    "C11": "MSPriorityQueue's hand-over-hand node locks are array-indexed (m_Heap[i] with i evolving as i/2, 2i, 2i+1) and tagged: the path engine "
+           "havocs exactly that index relation at loop headers, so a lock-discipline rule would be vacuous or alarm on correct code; FCPriorityQueue "
+           "alone (forwarding to std::priority_queue under the combiner) is too thin to claim the property (DESIGN.md §11.3)",
     "C26": "data-dependent loops; the permutation/inverse claims need induction over n - no sound structural clause that is not a frozen "
            "fragment (DESIGN.md §4 C26)",
 }
